@@ -16,7 +16,8 @@ EXTENDS SlashRules, TLC
 CONSTANTS V,            \* values that may appear in files and records, e.g. 0..2
           MaxEntries,
           MergeMode,    \* "max" (shipped) | "allOrNothing" (pre-fix) | "overwrite"
-          DupKeys       \* "merge" (shipped) | "lastWins" (pre-fix) | "lastWinsIfExisting"
+          DupKeys,      \* "merge" (shipped) | "lastWins" (pre-fix) | "lastWinsIfExisting"
+          WriteErrorReported \* FALSE (mutant): a record write that fails during the import is swallowed and the import reports success
 
 NoAtt == [s |-> -1, t |-> -1]
 Entries == [att : {NoAtt} \cup [s : V, t : V], slot : {-1} \cup V]
@@ -24,14 +25,16 @@ Max(a, b) == IF a >= b THEN a ELSE b
 
 VARIABLES db,       \* [s, t, ps]
           file,     \* Seq(Entries)
-          meta,     \* "ok" | "badversion" | "badroot" | "badnumber"
-          phase,    \* "build" | "imported" | "rejected"
+          meta,     \* "ok" | "badversion" | "badroot" | "badnumber" | "unstorable" (the file also names a key the store refuses to
+                    \* write - e.g. one whose bytes begin with the storage engine's reserved prefix: the write loop stops there,
+                    \* with this key's record written or not, depending on where the loop was)
+          phase,    \* "build" | "imported" | "rejected" | "failed"
           before    \* db before the import
 vars == <<db, file, meta, phase, before>>
 
 Init == /\ db \in [s : {-1} \cup V, t : {-1} \cup V, ps : {-1} \cup V]
         /\ (db.s = -1) = (db.t = -1)
-        /\ file = <<>> /\ meta \in {"ok", "badversion", "badroot", "badnumber"} /\ phase = "build" /\ before = db
+        /\ file = <<>> /\ meta \in {"ok", "badversion", "badroot", "badnumber", "unstorable"} /\ phase = "build" /\ before = db
 
 AddEntry == /\ phase = "build" /\ Len(file) < MaxEntries
             /\ \E e \in Entries : file' = Append(file, e)
@@ -62,6 +65,9 @@ Written(m) == WrittenOf(db, m)
 Import == /\ phase = "build" /\ file # <<>>
           /\ IF meta = "ok"
                THEN db' = Written(Merged) /\ phase' = "imported"
+               ELSE IF meta = "unstorable"
+               THEN /\ db' \in {db, Written(Merged)}       \* the loop stopped before or after this key
+                    /\ phase' = IF WriteErrorReported THEN "failed" ELSE "imported"
                ELSE db' = db /\ phase' = "rejected"
           /\ UNCHANGED <<file, meta, before>>
 
@@ -80,7 +86,7 @@ CoversOf(after, bef, f) ==
        /\ \A s, t \in V : ((\E a \in atts \cup {[s |-> bef.s, t |-> bef.t]} : t <= a.t \/ s < a.s))
                              => AttVerdict([s |-> after.s, t |-> after.t], s, t, "att") = "DENIED"
 ImportCovers == phase = "imported" => CoversOf(db, before, file)
-NeverLowers == phase = "imported" => (db.s >= before.s /\ db.t >= before.t /\ db.ps >= before.ps)
+NeverLowers == phase \in {"imported", "failed"} => (db.s >= before.s /\ db.t >= before.t /\ db.ps >= before.ps)
 RejectedChangesNothing == phase = "rejected" => db = before
 
 (* ---- C11 ---- *)
